@@ -1,6 +1,7 @@
 import Mkdb.Proofs.TypedTables3
 import Mkdb.Proofs.TypedTables4
-import Mkdb.Proofs.SessionInv10
+import Mkdb.Proofs.SessionInv8
+import Mkdb.Proofs.ColumnNames
 /-!
 C18, typed tables, part 5: **the tables SELECT reads from a stored database**.
 
@@ -11,6 +12,10 @@ C18, typed tables, part 5: **the tables SELECT reads from a stored database**.
 * `fetchTable_rows`: every row `Fetch` returns - for ANY store, any table name - is one decoded tuple
   read in schema order; so `fetchOf db` is well shaped (`fetchOf_wellShaped`) for every database.
 * `AbsV.typed`: a store that abstracts to a plain database abstracts to a TYPED one.
+
+(Imports: `SessionInv8` + `ColumnNames` instead of `SessionInv10` - nothing of SessionInv6/7/9/10 is used
+here or in TypedTables6, and `SessionInv6.exec_sessAbs` now needs `select_on_stored_never_panics` of
+TypedTables6 for the SELECT case; TypedTables7 imports `SessionInv10` itself.)
 -/
 set_option autoImplicit false
 namespace Mkdb.Store
